@@ -39,7 +39,6 @@
 (declare-fun ridBatch (Bytes) Int)
 (declare-fun ridHeight (Bytes) Int)
 (declare-fun ridIndex (Bytes) Int)
-(assert (forall ((c Bytes) (b Int) (h Int) (i Int)) (! (and (= (ridCtx (mkRID c b h i)) c) (= (ridBatch (mkRID c b h i)) b) (= (ridHeight (mkRID c b h i)) h) (= (ridIndex (mkRID c b h i)) i)) :pattern ((mkRID c b h i)))))
 
 (declare-fun bech32 (Bytes) Str)
 ; request-context ids: mkCtxID(txHash, msgIndex)
